@@ -146,3 +146,9 @@ CHECKS.update({
         "Exploration: every successful tx must carry the active gas price and gas*price >= minimum fee; native success: gasUsed = gasWanted = gas limit and the sender's balance change equals -(amount + gas*price); contract-path success: gasUsed <= limit and fee = gasUsed*price; per block, the balance change of every account touched only by fees/transfers/contract calls/proposer credit must equal the reference change, the proposer being credited exactly the sum of the fees of the block's successful txs. Gas prices 1/10/250e9, min gas 1/10/4000 and governance changes of both are generated.",
         "rapid-generated histories with up to 12 txs per block; non-trivial = a block with >=2 fee-paying successes of both the native and the contract path; distinct = distinct shape hashes"),
 })
+
+CHECKS["C19"] = chain("TestC19", "property-based testing of recorded per-height query answers: immutability, height-0 alias, agreement with the reference model, isolation from executing blocks, mempool checks and restarts",
+    "Exploration: after every commit the answer of every listed query path for every key the model knows (and unknown keys) is recorded and checked against the reference model's state of that height; later - after BeginBlock, after each DeliverTx of an executing block, between blocks, after injected CheckTx calls of fresh valid txs and after restarts - generated (path, key, height) re-asks must return the recorded value for past heights, the last committed value for height 0 (also mid-block, for keys the executing block already changed) and an error beyond the tip; a quiet twin that served no query must commit the same hashes.",
+    "rapid-generated histories of 8-26 blocks with injected mempool checks and ~12% restarts; non-trivial = a re-ask of a height >= 3 blocks old for a key whose answer changed since, or a mid-block height-0 ask for a key changed by a preceding successful DeliverTx of that block; distinct = distinct shape hashes",
+    quick=80, thorough=250,
+    note=CHAIN_NOTE + " Answers are compared as values (JSON canonicalised): the proposal query renders its voter map in Go's random map order. stakes/voting_power is evaluated with the current limits by design and is not among the paths the property lists.")
